@@ -172,7 +172,7 @@ impl WorldA {
                 Op::new(K_BROADCAST, ch, len, if rng.chance(1, 2) { 0 } else { 1 + rng.below(ncl) }, 0)
             }
             11 => {
-                let k = *rng.pick(&[K_MUTATE, K_MUTATE, K_FORGE, K_FORGE, K_FORGE, K_JUNK, K_FORGESLICE, K_FORGESLICE, K_FORGESLICE, K_FORGECLASH, K_FORGECLASH]);
+                let k = *rng.pick(&[K_MUTATE, K_MUTATE, K_FORGE, K_FORGE, K_FORGE, K_JUNK, K_FORGESLICE, K_FORGESLICE, K_FORGESLICE, K_FORGECLASH, K_FORGECLASH, K_FORGEFAT]);
                 Op::new(k, i as u64, d as u64, rng.next() >> 16, rng.next() >> 16)
             }
             12 => Op::new(K_API, rng.below(12), rng.below(ncl), rng.below(4), 0),
